@@ -48,6 +48,10 @@ CHECKS = {
          "For each of ~24 (quick) / ~27 (thorough) programs chosen so that every dict.Keys/Values/KVs call site sees >= 2 entries (records sharing field names, non-exhaustive matches, several package_info blocks, inference chains and stars, multi-file invocations, rejected programs) every schedule with at most 1 (quick) / 2 (thorough) non-identity permutations - all n! for n <= 4, else identity/reverse/move-to-front/move-to-back - is executed on the fc built with -tags verif; output files (bytes) and exit status must equal those of the all-identity schedule. The unhooked binary is also run 20 times per program and must reproduce the same result; the sources are scanned for map iteration outside the hooked functions.",
          "Menu completeness for n > 4 is argued, not enumerated; diagnostics text is not judged.",
          "DESIGN.md C05"),
+ "C07": ("exhaustive enumeration of definition histories and file cuts (choice-tree explorer over dependency-respecting sequences), one fc process per history, per-definition comparison with the minimal history",
+         "From a pool of 16 definitions (records, generic record and three users at two instantiations, union, `type ... and ...` group, package_info, top-level variable, functions with match temporaries / _.Field lambdas / many type variables, generic function and user) every dependency-respecting sequence of up to 4 (quick) / 5 (thorough) distinct definitions x every cut into at most 2 / 3 files of one invocation x a .foi variant for declaration-only first files is transpiled by the fc built from the working tree; for every definition the text of the Go declarations it owns (go/parser), with _vN numbers dropped, must equal its text in the minimal history, and exactly gen_X.go per X.fo argument (none for .foi) must be written.",
+         "Temporaries are compared modulo any numbering (see DESIGN.md C07 for why first-occurrence renumbering would be too strict).",
+         "DESIGN.md C07"),
 }
 NOT_APPLICABLE = []
 
